@@ -39,6 +39,8 @@ func parseBeh(toks []string) (*behT, []string) {
 	switch t {
 	case "R", "E":
 		return &behT{tag: t[0], mark: toks[1] == "1", z: atoi(toks[2])}, toks[3:]
+	case "G":
+		return &behT{tag: 'G', mark: toks[1] == "1", k: atoi(toks[2]), z: atoi(toks[3])}, toks[4:]
 	case "P", "X":
 		return &behT{tag: t[0], mark: toks[1] == "1"}, toks[2:]
 	case "F":
@@ -66,6 +68,28 @@ func mustBeh(s string) *behT {
 
 // eval mirrors EngineBase.eval_beh: (mark, action tag, value)
 func (b *behT) eval(attempt, seed int) (bool, byte, int) {
+	m, t, z, _ := b.eval4(attempt, seed)
+	return m, t, z
+}
+
+// eval4 also returns the status a G behaviour returns alongside its error.
+func (b *behT) eval4(attempt, seed int) (bool, byte, int, int) {
+	switch b.tag {
+	case 'F':
+		if attempt < b.k {
+			return false, 'E', b.z, 0
+		}
+		return b.sub[0].eval4(attempt, seed)
+	case 'B':
+		if seed%2 == 0 {
+			return b.sub[0].eval4(attempt, seed)
+		}
+		return b.sub[1].eval4(attempt, seed)
+	}
+	return b.mark, b.tag, b.z, b.k
+}
+
+func (b *behT) evalOld(attempt, seed int) (bool, byte, int) {
 	switch b.tag {
 	case 'F':
 		if attempt < b.k {
@@ -164,6 +188,8 @@ type engine struct {
 	wfs     map[int]*workflow.Workflow[Obj, st]
 	cancels map[int]context.CancelFunc
 	nproc   map[int]int
+	// number of processes of an instance seen in StateShutdown while the instance is running
+	deadProcs map[int]int
 }
 
 func (e *engine) attempt(code int, runID string) int {
@@ -182,9 +208,9 @@ func (e *engine) userTok(code int, view *workflow.Record, planned string) {
 func (e *engine) scripted(code int, b *behT, status int) func(ctx context.Context, r *workflow.Run[Obj, st]) (st, error) {
 	return func(ctx context.Context, r *workflow.Run[Obj, st]) (st, error) {
 		n := e.attempt(code, r.RunID)
-		mark, tag, z := b.eval(n, r.Object.Seed)
+		mark, tag, z, gst := b.eval4(n, r.Object.Seed)
 		view := r.Record
-		planned := map[byte]string{'R': fmt.Sprintf("r%d", z), 'E': fmt.Sprintf("e%d", z), 'P': "pause", 'X': "cancel"}[tag]
+		planned := map[byte]string{'R': fmt.Sprintf("r%d", z), 'E': fmt.Sprintf("e%d", z), 'G': fmt.Sprintf("e%d", z), 'P': "pause", 'X': "cancel"}[tag]
 		e.userTok(code, &view, planned)
 		if mark {
 			r.Object.Trail = append(r.Object.Trail, status)
@@ -194,6 +220,9 @@ func (e *engine) scripted(code int, b *behT, status int) func(ctx context.Contex
 			return st(z), nil
 		case 'E':
 			return 0, userErr{z}
+		case 'G':
+			// an error together with a (declared) status: the status must be ignored
+			return st(gst), userErr{z}
 		case 'P':
 			return r.Pause(ctx, "scripted pause")
 		default:
@@ -320,6 +349,7 @@ func (e *engine) start(inst int) {
 	e.s.instCtx[inst] = ctx
 	w := e.build(inst)
 	e.wfs[inst] = w
+	e.deadProcs[inst] = 0
 	e.cancels[inst] = cancel
 	w.Run(ctx)
 	n := len(w.States())
@@ -432,12 +462,35 @@ func (e *engine) stepProc(p *proc) {
 			e.crash(p.inst)
 			return
 		}
-		next := <-s.reqCh
+		var next *request
+		for next == nil {
+			select {
+			case next = <-s.reqCh:
+			case <-time.After(3 * time.Millisecond):
+				// no further adapter call: did the process terminate although the workflow is still running?
+				if n := e.shutdownCount(p.inst); n > e.deadProcs[p.inst] {
+					e.deadProcs[p.inst] = n
+					p.gone = true
+					s.emit(nil, "API=-1")
+					return
+				}
+			}
+		}
 		if next.p != p {
 			panic(fmt.Sprintf("request from %s/%s while stepping %s/%s", next.p.unit, next.kind, p.unit, kind))
 		}
 		p.parked = next
 	}
+}
+
+func (e *engine) shutdownCount(inst int) int {
+	n := 0
+	for _, st := range e.wfs[inst].States() {
+		if st == workflow.StateShutdown {
+			n++
+		}
+	}
+	return n
 }
 
 func (e *engine) recvOf(p *proc) *simReceiver {
@@ -560,7 +613,8 @@ func (e *engine) doOp(op string) {
 		pu := strings.SplitN(f[1], "/", 2)
 		p := e.findProc(atoi(pu[0]), pu[1])
 		if p == nil {
-			s.trace = append(s.trace, "NOPROC")
+			// the process no longer exists (it terminated although the workflow is running)
+			s.trace = append(s.trace, "API=-1")
 			return
 		}
 		e.stepProc(p)
@@ -598,7 +652,7 @@ func runEngine(kind string, a []string) string {
 		}
 	}
 	c := parseCfg(a[:sep])
-	e := &engine{c: c, s: newSim(), wfs: map[int]*workflow.Workflow[Obj, st]{}, cancels: map[int]context.CancelFunc{}, nproc: map[int]int{}}
+	e := &engine{c: c, s: newSim(), wfs: map[int]*workflow.Workflow[Obj, st]{}, cancels: map[int]context.CancelFunc{}, nproc: map[int]int{}, deadProcs: map[int]int{}}
 	e.s.stamp = c.opt["stamp"] != 0
 	for i := 1; i <= int(c.opt["inst"]); i++ {
 		e.start(i)
